@@ -488,7 +488,13 @@ func (in *Interp) try(s *S, sc *Scope) signal {
 			return fsig
 		}
 		if fsig.kind != sigNone {
-			return unspec("non-fallthrough-exit-from-finally")
+			// A break / continue / return executed inside finally while an error, a return, a break or a continue is
+			// leaving the try statement does not replace that way out: the statement lets an unhandled error propagate
+			// unchanged and return leave the function with its value (finally only runs). Everything else about
+			// leaving finally early (an error raised there; a control statement there after a normal end) stays open.
+			if fsig.kind == sigError || res.kind == sigNone {
+				return unspec("non-fallthrough-exit-from-finally")
+			}
 		}
 	}
 	return res
